@@ -137,7 +137,12 @@ def apply(stmts, st, unit_starts=()):
                 body = body[:-1].rstrip()
             if body.startswith("& "):
                 body = body[2:]
-            res.append(("     &" if cont else "      ") + body)
+            import re as _re
+            ml = _re.match(r"(\d+)\s+(.*)", body)
+            if ml and not cont:
+                res.append("%5s %s" % (ml.group(1), ml.group(2)))   # statement label in columns 1-5
+            else:
+                res.append(("     &" if cont else "      ") + body)
             cont = nxt
         phys = res
     phys = [change_case(l, st["case"]) for l in phys]
